@@ -70,6 +70,9 @@ void SPxSolverBase<R>::reLoad()
    this->unLoad();
    this->theLP = this;
    m_status = SPxSolverBase<R>::UNKNOWN;
+   weightsAreSetup = false;
+   sparsePricingLeave = sparsePricingEnter = sparsePricingEnterCo = false;
+   remainingRoundsLeave = remainingRoundsEnter = remainingRoundsEnterCo = 0;
 
    if(thepricer)
       thepricer->clear();
